@@ -6,7 +6,7 @@
 (* on the logged arguments and compares it with the logged result.  A panic   *)
 (* in the code under test is logged with panic = 1, for which no record       *)
 (* predicate holds.                                                           *)
-EXTENDS Isa, Sequences, Json, IOUtils, TLC
+EXTENDS Isa, WordInit, Sequences, FiniteSets, Json, IOUtils, TLC
 
 Rec == ndJsonDeserialize(IOEnv.TRACE)
 N   == Len(Rec)
@@ -74,12 +74,48 @@ OffsetOK(r) ==
           /\ (r.new_ok = 1) => r.new_v = r.v
           /\ r.trunc = TruncU(r.v, r.n)
 
+\* C15.  The value function of each operation on 16-bit values.
+OpVal(op, x, y) == CASE op = "add" -> (x + y) % 65536 [] op = "sub" -> (x - y) % 65536
+                     [] op = "and" -> (x & y) [] op = "not" -> 65535 - x
+\* all completions of a word: the known bits fixed, every combination of the unknown ones
+UnknownBits(m) == { bb \in 0..15 : Bit(m, bb) = 0 }
+RECURSIVE SumPow(_)
+SumPow(BS) == IF BS = {} THEN 0 ELSE LET bb == CHOOSE b0 \in BS : TRUE IN Pow2(bb) + SumPow(BS \ {bb})
+CompletionsOf(p) == { (p[1] & p[2]) + SumPow(BS) : BS \in SUBSET UnknownBits(p[2]) }
+\* bits on which two values agree, restricted to mask m
+AgreeOn(u, v, m) == (u & m) = (v & m)
+
+WordOpOK(r) ==
+  LET rv == r.r[1]  rm == r.r[2]  full == (r.a[2] = 65535 /\ (r.op = "not" \/ r.b[2] = 65535)) IN
+  /\ r.panic = 0
+  \* fully initialized operands: wrapping value, fully initialized
+  /\ full => (rm = 65535 /\ rv = OpVal(r.op, r.a[1], r.b[1]))
+  \* the reported value is the operation on the data as given
+  /\ AgreeOn(rv, OpVal(r.op, r.a[1], r.b[1]), rm)
+  \* witnesses through the real operators: re-drawing the unknown bits never changes a
+  \* bit that was reported initialized (and reports the same mask for these operators' rules)
+  /\ \A j \in 1..Len(r.rr) : r.rr[j][3] >= 0 /\ AgreeOn(r.rr[j][3], rv, rm)
+                              /\ AgreeOn(OpVal(r.op, r.rr[j][1], r.rr[j][2]), rv, rm)
+  \* exact decision for the structured pairs: every completion, enumerated by TLC
+  /\ (r.kind = "enum") =>
+        \A cx \in CompletionsOf(r.a) : \A cy \in (IF r.op = "not" THEN {0} ELSE CompletionsOf(r.b)) :
+           AgreeOn(OpVal(r.op, cx, cy), rv, rm)
+
+\* conformance of the propagation rule itself (a different sound rule would also satisfy C15)
+WordOpConf(r) ==
+  LET x == W(r.a[1], r.a[2])  y == W(r.b[1], r.b[2])
+      e == CASE r.op = "add" -> AddW(x, y) [] r.op = "sub" -> SubW(x, y) [] r.op = "and" -> AndW(x, y) [] r.op = "not" -> NotW(x)
+  IN r.r = <<e.v, e.m>>
+
 RecOK(r) ==
   CASE r.ev = "Decode" -> DecodeOK(r)
     [] r.ev = "Encode" -> EncodeOK(r)
     [] r.ev = "Disasm" -> DisasmOK(r)
     [] r.ev = "Offset" -> OffsetOK(r)
+    [] r.ev = "WordOp" -> WordOpOK(r)
     [] OTHER -> FALSE
 
 TableOK == phase = "ret" => RecOK(Rec[i])
+\* reported as drift, not as a violation of C15
+TableConf == (phase = "ret" /\ Rec[i].ev = "WordOp") => WordOpConf(Rec[i])
 =============================================================================
